@@ -643,12 +643,24 @@ def r9_symbol_params(ctx, m, rule="C12.R9") -> None:
             want = bool(ty) and ty[0] and bool(cp) and cp[0]
             ok_c = ok_c and (len(con) == 1 and len(others) == 1 if want else not others) and bool(ty)
     else:
-        decl = tfind(cf, T(f"L_ps = [model.Param(str(c0), c1.to_model()) for c0, c1 in enumerate({pt})]"))
-        ok_p = len(decl) == 1
-        for tm in (f"[model.Apply('core.nonlinear', [model.Var(str(c0))]) for c0, c1 in enumerate({pt}) if isinstance(c1, TypeTypeParam) if c1.bound == TypeBound.Copyable]",):
-            ok_c = ok_c or bool(tfind(cf, T(tm)))
-        if not ok_p and not ok_c and not any("core.nonlinear" in u(x) for x in ast.walk(cf) if isinstance(x, ast.Constant)):
-            ctx.broken("export_symbol: neither a loop over enumerate(param_types) nor the comprehension form")
+        # comprehension spellings: the normal form of the returned Symbol (engine C: pipelines of comprehensions fuse, fields of a
+        # constructed Param project) against the normal form of the specification
+        from ..nf import NF, Env, Opaque, ctor_args, sym
+        nf = NF(ctx.program)
+        _, mod_, cls_ = ctx.locate(q)
+        names = [a.arg for a in fn.args.args]
+        env = Env(mod_, cls_, {n_: sym(n_) for n_ in names}, {sym(names[0]): cls_})
+        try:
+            got = nf.body(cf, env)
+            want, _ = nf.expr_nf(
+                f"model.Symbol({names[1]}, [model.Param(str(i), p.to_model()) for i, p in enumerate({pt})], "
+                f"[model.Apply('core.nonlinear', [model.Var(str(i))]) for i, p in enumerate({pt}) if isinstance(p, TypeTypeParam) and p.bound == TypeBound.Copyable], "
+                f"{names[3]}.to_model())", cls_, extra={n_: sym(n_) for n_ in names[1:]})
+        except Opaque as ex:
+            ctx.broken(f"export_symbol: neither a loop over enumerate(param_types) nor a normalisable expression ({ex})")
+        ga, wa = (ctor_args(got) if got[0] == "ctor" else {}), ctor_args(want)
+        ok_p = ga.get("params") == wa.get("params")
+        ok_c = ga.get("constraints") == wa.get("constraints")
     ctx.check(ok_p, rule, "export_symbol: parameters named by position", m.path, fn.lineno,
               "parameter i of the list is declared as model.Param(str(i), its exported type): variables of the signature refer to parameters by that name", fn)
     ctx.check(ok_c, rule, "export_symbol: copyable type parameters constrained under their own name", m.path, fn.lineno,
